@@ -190,6 +190,8 @@ class Machine:
         self.dry = claripy is None  # dry = reference/handle bookkeeping only (rebuilding state after a restart)
         self.errors = claripy.errors if claripy is not None else None
         self.start_at = 0
+        self.checks_per_op = {}
+        self.by_idx = {}
 
     # ------------------------------------------------------------------ helpers
     def ref0(self):
@@ -291,6 +293,10 @@ class Machine:
             except _Unbuildable as e:
                 ans = ["unbuildable", str(e)[:80]]
                 self.stats["unbuildable"] += 1
+            except _Forwarded as v:
+                self.note(idx, op, ["VIOLATION-IN-FRESH-PROCESS", v.clause])
+                v.detail.setdefault("specs", [])
+                raise Violation(v.clause, v.detail) from None
             except Violation as v:
                 v.detail["op_index"] = idx
                 v.detail["fault_fired"] = (self.seam.fired[fired_before:] if self.seam is not None else [])
@@ -298,15 +304,44 @@ class Machine:
                 self.note(idx, op, ["VIOLATION", v.clause])
                 raise
             self.stats["ops"] += 1
+            if getattr(self, "finished_elsewhere", False):
+                self.note(idx, op, ans)
+                break
+            if "same_as" in op:
+                self.check_same_as(idx, op, ans)
+            if self.seam is not None and self.seam.op_checks:
+                self.checks_per_op[idx] = self.seam.op_checks
             self.note(idx, op, ans)
         if self.seam is not None:
             self.stats["checks"] = self.seam.total
             self.stats["faults_fired"] = len(self.seam.fired)
 
+    DETERMINED = {"sat", "opt", "sol", "unsat-error"}
+
+    def check_same_as(self, idx, op, ans):
+        """C18 twin clause: an unpickled solver must give the same *determined* answers as the original (sat, optimum,
+        solution, exhaustive evals as sets, UnsatError); which model Z3 picks for an under-determined eval is not part
+        of the contract."""
+        prev = self.by_idx.get(op["same_as"])
+        if prev is None:
+            return
+        a = json.loads(json.dumps(ans, default=_jsonable))
+        kind_a, kind_b = a[0], prev[0]
+        det = lambda x, o: x[0] in self.DETERMINED or (x[0] in ("vals", "tups") and len(x[1]) < o.get("n", 0))  # noqa: E731
+        other = self.rec["ops"][op["same_as"]]
+        no = (["unsat-error"], ["sol", False], ["sat", False])  # three ways of saying "no" on an unsatisfiable set
+        if a in no and prev in no:
+            return
+        if det(a, op) and det(prev, other) and a != prev:
+            h = self.H(op)
+            self.bad("twin-answers-differ", h, op, original=prev, twin=a, same_as=op["same_as"])
+
     def note(self, idx, op, ans):
         s = json.dumps([idx, op["op"], ans], sort_keys=True, default=_jsonable)
         self.trace.update(s.encode())
-        self.answers.append(json.loads(s))
+        j = json.loads(s)
+        self.answers.append(j)
+        self.by_idx[idx] = j[2]
 
     def digest(self):
         return self.trace.hexdigest()[:16]
@@ -1041,6 +1076,49 @@ class Machine:
             # SMT-LIB defines division by zero; claripy's concrete backend does not: cannot judge this element here
             raise _Skip("concrete backend cannot evaluate core element (division by zero)") from None
 
+    # ------------------------------------------------------------------ ops: fresh-interpreter restart (C18)
+    def op_restart_fresh(self, op):
+        """Crash model: only what pickle emits survives.  All live solvers and all slot expressions are pickled, a new
+        interpreter with another PYTHONHASHSEED loads them and continues the history; its verdict is ours."""
+        import base64
+        import os
+        import subprocess
+
+        if self.dry:
+            return ["dry"]
+        live = [h for h in self.handles if h.alive]
+        try:
+            blob = pickle.dumps({"solvers": [h.solver for h in live], "slots": self.slots}, op.get("proto", pickle.HIGHEST_PROTOCOL))
+        except Exception as e:  # noqa: BLE001
+            raise Violation("pickle-failed", {"h": None, "cls": None, "op": op["op"], "exc": self.exc_detail(e)}) from None
+        env = dict(os.environ)
+        env["PYTHONHASHSEED"] = str(op.get("hashseed", 4242))
+        env["PYTHONDONTWRITEBYTECODE"] = "1"
+        here = os.path.dirname(os.path.dirname(os.path.abspath(__file__)))
+        req = json.dumps({"record": self.rec, "at": self.cur_idx, "blob": base64.b64encode(blob).decode()})
+        p = subprocess.run(["/venv/bin/python", os.path.join(here, "verif.py"), "_resume"], input=req, capture_output=True,
+                           text=True, env=env, cwd=here, timeout=300)
+        try:
+            res = json.loads(p.stdout.strip().splitlines()[-1])
+        except Exception:  # noqa: BLE001
+            raise HarnessError(f"resume process failed rc={p.returncode}: {p.stderr[-1500:]}") from None
+        self.stats["restarts"] = self.stats.get("restarts", 0) + 1
+        for k, v in (res.get("stats") or {}).items():
+            if k in ("ops", "queries", "adds", "checks"):
+                self.stats[k] = self.stats.get(k, 0) + v
+        self.finished_elsewhere = True
+        if res.get("status") == "violation":
+            v = res["violation"]
+            d = dict(v["detail"])
+            d["in_fresh_process"] = True
+            d["fresh_hashseed"] = op.get("hashseed", 4242)
+            raise _Forwarded(v["clause"], d)
+        if res.get("status") == "harness_error":
+            raise HarnessError(res.get("error"))
+        if res.get("status") == "excluded":
+            raise _Excluded(res)
+        return ["resumed", res.get("digest")]
+
     # ------------------------------------------------------------------ ops: expression pickling (C18)
     def op_pickle_expr(self, op):
         e = op["e"]
@@ -1059,6 +1137,16 @@ class Machine:
 
 class _Skip(Exception):
     pass
+
+
+class _Forwarded(Violation):
+    """a violation found by the fresh interpreter that continued this history"""
+
+
+class _Excluded(Exception):
+    def __init__(self, res):
+        super().__init__("excluded")
+        self.res = res
 
 
 class _Unbuildable(Exception):
